@@ -988,8 +988,8 @@ func (f *c09Fix) runSequence(nBlocks int) {
 			}
 			f.extraOps()
 		}
-		if f.lend && rng.Chance(15) {
-			f.aimBorrowThresholdExact()
+		if f.lend && rng.Chance(25) {
+			f.aimBorrowThresholdExact(int64(rng.Range(-1, 1)))
 		}
 		f.shapeStats()
 		f.block()
@@ -1005,7 +1005,7 @@ func (f *c09Fix) nextBlockCtx() sdk.Context {
 
 // boundary-directed threshold: the liquidation threshold (the e-mode one for an e-mode pair) of the collateral asset of a
 // same-pool borrow := its ratio at the next block + {-1, 0, +1} ulp — the strictness of `ratio.GT(threshold)` is decided here
-func (f *c09Fix) aimBorrowThresholdExact() {
+func (f *c09Fix) aimBorrowThresholdExact(d int64) bool {
 	var cand []c09Borrow
 	recs := f.borrowRecords()
 	st, en := f.borrowRange(f.ctx, len(recs))
@@ -1015,13 +1015,13 @@ func (f *c09Fix) aimBorrowThresholdExact() {
 		}
 	}
 	if len(cand) == 0 {
-		return
+		return false
 	}
 	r := cand[0] // the first one of the coming range: no earlier seizure of the pass changes its accrual
 	nctx, _ := f.nextBlockCtx().CacheContext()
 	acc, err := f.app.LendKeeper.CalculateBorrowInterestForLiquidation(nctx, r.id)
 	if err != nil {
-		return
+		return false
 	}
 	a1, _ := f.app.AssetKeeper.GetAsset(f.ctx, r.assetIn)
 	a2, _ := f.app.AssetKeeper.GetAsset(f.ctx, r.assetOut)
@@ -1030,9 +1030,8 @@ func (f *c09Fix) aimBorrowThresholdExact() {
 		ratio, err = f.app.LendKeeper.CalculateCollateralizationRatio(nctx, acc.AmountIn.Amount, a1, acc.AmountOut.Amount.Add(acc.InterestAccumulated.TruncateInt()), a2)
 	})
 	if p || err != nil || !ratio.IsPositive() {
-		return
+		return false
 	}
-	d := int64(f.rng.Range(-1, 1))
 	rp, _ := f.app.LendKeeper.GetAssetRatesParams(f.ctx, r.assetIn)
 	if r.emode {
 		rp.ELiquidationThreshold = ratio.Add(sdk.NewDecWithPrec(d, 18))
@@ -1041,6 +1040,42 @@ func (f *c09Fix) aimBorrowThresholdExact() {
 	}
 	f.app.LendKeeper.SetAssetRatesParams(f.ctx, rp)
 	f.tr.Count(fmt.Sprintf("op:aimborrow-threshold-exact:%d", d))
+	return true
+}
+
+// Strictness of the borrow test, deterministically, both generations: threshold := the ratio the next block computes, exactly ⇒ the
+// borrow stays (`GT`, not `GTE`); threshold := that ratio − 1 ulp ⇒ the sweep seizes it.
+func c09WitnessBorrowStrict(t *testing.T, app *chain.App, base sdk.Context, tr *Trace, gen int) {
+	ctx, _ := base.CacheContext()
+	f := c09Build(t, app, ctx, gen, NewRng(61), tr, true)
+	c09LendFixture(f)
+	f.setBatch(9)
+	if gen == 2 {
+		for _, a := range f.apps {
+			f.setWl2E(a, true, false)
+		}
+	} else {
+		f.setLendAuc1(lendtypes.AppID)
+	}
+	tr.Line("liq.begin", fmt.Sprintf("v%d", gen), "9")
+	f.block()
+	flagged := func() int {
+		n := 0
+		for _, r := range f.borrowRecords() {
+			if r.liquidated {
+				n++
+			}
+		}
+		return n
+	}
+	if !f.aimBorrowThresholdExact(0) {
+		t.Fatal("witness: no same-pool borrow to aim at")
+	}
+	f.block()
+	tr.Set(fmt.Sprintf("witness_borrow_strict_gen%d_flagged_at_equality", gen), flagged())
+	f.aimBorrowThresholdExact(-1)
+	f.block()
+	tr.Set(fmt.Sprintf("witness_borrow_strict_gen%d_flagged_one_ulp_above", gen), flagged())
 }
 
 // statistics only: what kind of seizures the last transition performed (per generation, per auction type)
@@ -1374,6 +1409,8 @@ func TestC09(t *testing.T) {
 	c09WitnessGuardsV1(t, app, base, tr)
 	c09WitnessBorrowGuards(t, app, base, tr, 1)
 	c09WitnessBorrowGuards(t, app, base, tr, 2)
+	c09WitnessBorrowStrict(t, app, base, tr, 1)
+	c09WitnessBorrowStrict(t, app, base, tr, 2)
 	c09WitnessEmodeMsgV1(t, app, base, tr)  // NEW finding: generation-1 MsgLiquidateBorrow ignores e-mode
 	c09WitnessAuctionTypesV2(t, app, base, tr) // English-only and no-type whitelistings
 
@@ -2024,7 +2061,7 @@ func c09WitnessBorrowGuards(t *testing.T, app *chain.App, base sdk.Context, tr *
 	}
 	tr.Line("liq.begin", fmt.Sprintf("v%d", gen), "9")
 	f.block()
-	f.setPrice(f.lendCol, 1500000, true)
+	f.setPrice(f.lendCol, 1000000, true) // LA 2.0 -> 1.0, LB 2.0 -> 1.4: same-pool (LA/LB) and cross-pool (LB/LD) borrows are all far above their thresholds
 	f.setPrice(f.lendCol2, 1400000, true)
 	msgs := func() {
 		for _, r := range f.borrowRecords() {
